@@ -355,6 +355,14 @@ func c07DumpNode(n *ischema.ObjectNode) *c07Node {
 		if k.IsShortcut {
 			key = "<shortcut>" + key
 		}
+		// the same member looked up by name
+		if got, ok := n.Child(k.Key, k.IsShortcut); !ok {
+			key += "<not found by name>"
+		} else if got != ch {
+			key += "<looked up by name: another member>"
+		} else if kk, _ := n.Keys().Get(k.Key, k.IsShortcut); kk.Index != i {
+			key += fmt.Sprintf("<its key says index %d>", kk.Index)
+		}
 		out.Keys = append(out.Keys, key)
 		out.From = append(out.From, ch.InheritedFrom())
 		if on, ok := ch.(*ischema.ObjectNode); ok {
@@ -1278,6 +1286,18 @@ func c07Small() (out []*gen.Project, family []string) {
 			}
 		}
 	}
+	// every pair of type-name values (the families of similar types included: a
+	// differing value is a differing value) on child and parent, and on two parents
+	W := []string{`"string"`, `"email"`, `"uri"`, `"uuid"`, `"date"`, `"datetime"`, `"float"`, `"decimal"`, `"integer"`, `"any"`, `"mixed"`, `"enum"`, `"null"`, `"boolean"`, `"object"`, `"array"`, `"@t"`, "false"}
+	for _, x := range W {
+		for _, y := range W {
+			emit("ap-names", &gen.Project{Root: obj(x, []string{"@a"}, c07Mem("r", 0)), Types: []gen.NamedNode{nt("@a", obj(y, nil, c07Mem("ua", 0)))}})
+			emit("ap-names", &gen.Project{Root: obj("", []string{"@a", "@b"}, c07Mem("r", 0)), Types: []gen.NamedNode{
+				nt("@a", obj(x, nil, c07Mem("ua", 0))), nt("@b", obj(y, nil, c07Mem("ub", 0)))}})
+			emit("ap-names", &gen.Project{Root: obj(x, []string{"@b"}), Types: []gen.NamedNode{
+				nt("@a", obj(y, nil, c07Mem("ua", 0))), nt("@b", obj("", []string{"@a"}, c07Mem("ub", 0)))}})
+		}
+	}
 	// optional status of own and inherited members
 	for m := 0; m < 729; m++ {
 		o := [6]int{}
@@ -1607,7 +1627,7 @@ func init() {
 				c07Run1(r, nil, c.Project, c.Layout, "replay", true)
 			}
 		},
-		Rule:               "projects (root object + registered types; every type registered in the root and in every other type) are printed and compiled on fresh objects. Reference model: each object is flattened depth-first (own members in written order, then the flattened members of every type of its allOf list in written order, transitively) while the refusal reasons are collected on the model: parent not registered (1302), parent not an object (704), cyclic chain incl. a type containing an object that inherits from it (703), a property name arriving twice (402), differing additionalProperties on an object and a parent or on two parents (705). Model accepts: root.Check() and every type's Check() must be nil; ordered key tree of Example() (encoding/json token stream), openapi.Dereference -> ObjectInformer.PropertiesInfos() (Key, Optional) and the compiled ObjectNode (Children/Key, nested objects recursively) must equal own-then-inherited; for objects carrying allOf: InheritedFrom of own members empty, of inherited members the type named in the allOf list or the type where the member is written; RequiredKeys constraint = the non-optional members (as a set). Model refuses (reason reachable from the root): Check() must fail; a code outside the applicable set is reported under the softer clause refusal-code. One accepted project in four is judged a second time with every object created with AreKeysOptionalByDefault (the model then takes a member as optional unless it says optional: false). Every case is executed twice on fresh objects (difference = nondeterministic) and every 4th also with all types compiled before the root. Workload: (0) placements: the inheriting object as root, member, array item, second array item, array item in a member, nested array item, root of a type, array item inside a type, member of a member of a type, over 6 parent shapes (plain, key shortcut first / last, chain, optional member, nested object member) and 8 variants (valid, parent missing, parent not an object, name clash, a quoted @K own key next to an inherited key shortcut, allOf as a list, the parent listed twice, the parent listed next to a type that inherits from it) - Example() must be the own members followed by the inherited ones, the invalid variants must be refused; (1) complete hand-shaped families: all pairs/triples/quadruples of additionalProperties values {absent,true,false,\"string\",\"integer\",\"@t\"} over child/parent, chain, two parents, nested object, diamond; 3^6 optional markings over a two-parent + chain graph; every refusal reason alone and in ordered pairs at 6 positions (root, nested in root, type, nested in type, unreachable type); nested objects with own allOf over 2 types; (2) ALL graphs over <= 3 types (quick: allOf lists <= 2 names; thorough: any list; + 2M sampled graphs over 4 types), each type string / array / object with member set {none, unique required+optional, shared key} and any ordered allOf list incl. itself, root with 3 member sets inheriting from the first k types, allOf written as \"@a\" or [\"@a\"]; (3) random projects (<= 5 types, key pools of 4 / 12 / unique names, optional true/false, nested objects to depth 2 with own allOf, additionalProperties, missing names, shuffled registration order, random layouts). distinct_nontrivial = distinct printed projects with a definite model verdict.",
+		Rule:               "projects (root object + registered types; every type registered in the root and in every other type) are printed and compiled on fresh objects. Reference model: each object is flattened depth-first (own members in written order, then the flattened members of every type of its allOf list in written order, transitively) while the refusal reasons are collected on the model: parent not registered (1302), parent not an object (704), cyclic chain incl. a type containing an object that inherits from it (703), a property name arriving twice (402), differing additionalProperties on an object and a parent or on two parents (705). Model accepts: root.Check() and every type's Check() must be nil; ordered key tree of Example() (encoding/json token stream), openapi.Dereference -> ObjectInformer.PropertiesInfos() (Key, Optional) and the compiled ObjectNode (Children/Key, every member also looked up by name, nested objects recursively) must equal own-then-inherited; for objects carrying allOf: InheritedFrom of own members empty, of inherited members the type named in the allOf list or the type where the member is written; RequiredKeys constraint = the non-optional members (as a set). Model refuses (reason reachable from the root): Check() must fail; a code outside the applicable set is reported under the softer clause refusal-code. One accepted project in four is judged a second time with every object created with AreKeysOptionalByDefault (the model then takes a member as optional unless it says optional: false). Every case is executed twice on fresh objects (difference = nondeterministic) and every 4th also with all types compiled before the root. Workload: (0) placements: the inheriting object as root, member, array item, second array item, array item in a member, nested array item, root of a type, array item inside a type, member of a member of a type, over 6 parent shapes (plain, key shortcut first / last, chain, optional member, nested object member) and 8 variants (valid, parent missing, parent not an object, name clash, a quoted @K own key next to an inherited key shortcut, allOf as a list, the parent listed twice, the parent listed next to a type that inherits from it) - Example() must be the own members followed by the inherited ones, the invalid variants must be refused; (1) complete hand-shaped families: all pairs/triples/quadruples of additionalProperties values {absent,true,false,\"string\",\"integer\",\"@t\"} over child/parent, chain, two parents, nested object, diamond; all pairs of 18 values (every type name, \"@t\", false) over child/parent, two parents and a chain; 3^6 optional markings over a two-parent + chain graph; every refusal reason alone and in ordered pairs at 6 positions (root, nested in root, type, nested in type, unreachable type); nested objects with own allOf over 2 types; (2) ALL graphs over <= 3 types (quick: allOf lists <= 2 names; thorough: any list; + 2M sampled graphs over 4 types), each type string / array / object with member set {none, unique required+optional, shared key} and any ordered allOf list incl. itself, root with 3 member sets inheriting from the first k types, allOf written as \"@a\" or [\"@a\"]; (3) random projects (<= 5 types, key pools of 4 / 12 / unique names, optional true/false, nested objects to depth 2 with own allOf, additionalProperties, missing names, shuffled registration order, random layouts). distinct_nontrivial = distinct printed projects with a definite model verdict.",
 		MinNontrivialQuick: 150000, MinNontrivialThorough: 2000000,
 		MaxInconclusiveFrac: 0.01,
 		Assumptions: []string{
